@@ -159,6 +159,12 @@ def constructed(rng):
     # 5b''. wide products whose cut-off digits are a tie (or zero) plus a non-zero multiple of 2^32 / 2^64 / 2^96
     for x_, a_, y_, b_, n_ in C.wide_tie_word_products(rng, 18):
         dd(x_ * rng.choice((1, -1)), a_, y_, b_)
+    # 5b3. products just below a primitive-type maximum (and in the upper part of the band below it) whose cut-off
+    #       digits are all nines / zero / one / half
+    for x_, a_, y_, b_, n_ in C.products_near_type_maxima(rng, 18):
+        sx, sy = rng.choice((1, -1)), rng.choice((1, -1))
+        dd(sx * x_, a_, sy * y_, b_)
+        dd(sy * y_, b_, sx * x_, a_)
     # 5c. operands at floor(T / 10^k) +- 2 for every primitive-type maximum T
     for x, y in G.threshold_pairs(rng)[::3]:
         dd(x[0], x[1], y[0], y[1])
